@@ -451,6 +451,8 @@ func c02Engine(p *Prog, r *Report) {
 
 // c02Store: in the function-data store a present filter never takes the replace path.
 func c02Store(p *Prog, r *Report) {
+	r.Rule("R10", "the comparator the merged list is sorted with is a lexicographic ascending order over the key values: smaller decides true, larger decides false, equal moves on to the next key, ties yield false (truth table over the three relations)")
+	comparatorRule(p, r, "R10")
 	r.Rule("R8", "in FunctionData.UpdateData every store to the data field is either guarded by both filters being nil (replace path) or happens after the Updater.UpdateList call under its success (merge path)")
 	var fns []*ssa.Function
 	for _, f := range p.RepoFns("spine") {
@@ -505,4 +507,206 @@ func c02Store(p *Prog, r *Report) {
 		}
 	}
 	r.Floor("R8", "stores to FunctionData.data", nStores, 2)
+}
+
+// comparatorRule: the less function handed to the sort of the merged list is a
+// lexicographic "<" over the key fields. Decided by a truth table: for each of
+// the three relations between the two key values of one loop iteration the
+// closure is simulated from the point where both values are known.
+func comparatorRule(p *Prog, r *Report, rule string) {
+	n := 0
+	seen := map[*ssa.Function]bool{}
+	for _, fn := range p.RepoFns("model") {
+		if originName(fn) != "SortData" || seen[originOf(fn)] {
+			continue
+		}
+		seen[originOf(fn)] = true
+		var less *ssa.Function
+		forEachCall(fn, func(site ssa.CallInstruction) {
+			callee := site.Common().StaticCallee()
+			if callee == nil || fnPkgPath(callee) != "sort" || (callee.Name() != "Slice" && callee.Name() != "SliceStable") {
+				return
+			}
+			if mc, ok := site.Common().Args[1].(*ssa.MakeClosure); ok {
+				less, _ = mc.Fn.(*ssa.Function)
+			}
+		})
+		base := "model.SortData"
+		if less == nil || len(less.Params) != 2 {
+			r.Undecided(rule, base+"|less", p.Pos(fn.Pos()), "no sort.Slice call with a closure found")
+			continue
+		}
+		n++
+		ti, tj := forwardTaint(less.Params[0]), forwardTaint(less.Params[1])
+		// comparisons of an i-side value with a j-side value
+		type cmp struct {
+			bo      *ssa.BinOp
+			swapped bool
+		}
+		var cmps []cmp
+		var vi, vj ssa.Value
+		for _, b := range less.Blocks {
+			for _, ins := range b.Instrs {
+				bo, ok := ins.(*ssa.BinOp)
+				if !ok {
+					continue
+				}
+				switch bo.Op {
+				case token.LSS, token.GTR, token.LEQ, token.GEQ, token.EQL, token.NEQ:
+				default:
+					continue
+				}
+				if _, isC := bo.X.(*ssa.Const); isC {
+					continue
+				}
+				if _, isC := bo.Y.(*ssa.Const); isC {
+					continue
+				}
+				if b, ok := bo.X.Type().Underlying().(*types.Basic); !ok || b.Info()&types.IsInteger == 0 {
+					continue
+				}
+				switch {
+				case ti[bo.X] && !tj[bo.X] && tj[bo.Y] && !ti[bo.Y]:
+					cmps = append(cmps, cmp{bo, false})
+					vi, vj = bo.X, bo.Y
+				case tj[bo.X] && !ti[bo.X] && ti[bo.Y] && !tj[bo.Y]:
+					cmps = append(cmps, cmp{bo, true})
+					vi, vj = bo.Y, bo.X
+				}
+			}
+		}
+		if len(cmps) == 0 {
+			r.Undecided(rule, base+"|comparisons", p.Pos(less.Pos()), "no comparison between a key value of item i and one of item j found")
+			continue
+		}
+		// the pair of key values is the one compared by an ordered comparison; equality tests of other pairs
+		// (field counts, kinds) are not part of the order
+		vi, vj = nil, nil
+		for _, c := range cmps {
+			if c.bo.Op == token.EQL || c.bo.Op == token.NEQ {
+				continue
+			}
+			x, y := c.bo.X, c.bo.Y
+			if c.swapped {
+				x, y = y, x
+			}
+			if vi == nil {
+				vi, vj = x, y
+			} else if x != vi || y != vj {
+				r.Undecided(rule, base+"|comparisons", p.InstrPos(c.bo), "ordered comparisons of more than one pair of values")
+				vi = nil
+				break
+			}
+		}
+		if vi == nil {
+			if len(r.Obs) == 0 || true {
+				r.Undecided(rule, base+"|comparisons", p.Pos(less.Pos()), "no ordered comparison between a key value of item i and one of item j found")
+			}
+			continue
+		}
+		var same []cmp
+		for _, c := range cmps {
+			x, y := c.bo.X, c.bo.Y
+			if c.swapped {
+				x, y = y, x
+			}
+			if x == vi && y == vj {
+				same = append(same, c)
+			}
+		}
+		cmps = same
+		// start: the block that defines the later of the two values
+		start := vi.(ssa.Instruction).Block()
+		if vjb := vj.(ssa.Instruction).Block(); vjb != start && start.Dominates(vjb) {
+			start = vjb
+		}
+		rel := func(c cmp, rho int) bool { // rho: -1 i<j, 0 equal, 1 i>j
+			rr := rho
+			if c.swapped {
+				rr = -rho
+			}
+			switch c.bo.Op {
+			case token.LSS:
+				return rr < 0
+			case token.GTR:
+				return rr > 0
+			case token.LEQ:
+				return rr <= 0
+			case token.GEQ:
+				return rr >= 0
+			case token.EQL:
+				return rr == 0
+			}
+			return rr != 0
+		}
+		want := map[int]string{-1: "true", 0: "next-key", 1: "false"}
+		names := map[int]string{-1: "key(i) < key(j)", 0: "key(i) = key(j)", 1: "key(i) > key(j)"}
+		for _, rho := range []int{-1, 0, 1} {
+			outcomes := map[string]bool{}
+			seenB := map[*ssa.BasicBlock]bool{}
+			var walk func(b *ssa.BasicBlock, first bool)
+			walk = func(b *ssa.BasicBlock, first bool) {
+				if !first && b != start && b.Dominates(start) {
+					outcomes["next-key"] = true
+					return
+				}
+				if seenB[b] {
+					return
+				}
+				seenB[b] = true
+				switch last := b.Instrs[len(b.Instrs)-1].(type) {
+				case *ssa.Return:
+					if v, ok := constBool(last.Results[0]); ok {
+						outcomes[fmt.Sprint(v)] = true
+					} else {
+						rv, pol := normCond(last.Results[0], true)
+						decided := false
+						for _, c := range cmps {
+							if ssa.Value(c.bo) == rv {
+								outcomes[fmt.Sprint(rel(c, rho) == pol)] = true
+								decided = true
+							}
+						}
+						if !decided {
+							outcomes["?"] = true
+						}
+					}
+				case *ssa.If:
+					cond, pol := normCond(last.Cond, true)
+					for _, c := range cmps {
+						if ssa.Value(c.bo) == cond {
+							if rel(c, rho) == pol {
+								walk(b.Succs[0], false)
+							} else {
+								walk(b.Succs[1], false)
+							}
+							return
+						}
+					}
+					walk(b.Succs[0], false)
+					walk(b.Succs[1], false)
+				default:
+					for _, s := range b.Succs {
+						walk(s, false)
+					}
+				}
+			}
+			walk(start, true)
+			got := strings.Join(sortedKeys(outcomes), "|")
+			r.Check(rule, fmt.Sprintf("%s|less|%s", base, names[rho]), got == want[rho], p.InstrPos(cmps[0].bo), fmt.Sprintf("with %s the comparator does: %s (a lexicographic ascending order needs: %s)", names[rho], got, want[rho]))
+		}
+		// irreflexivity / ties: true is returned only by the comparison itself
+		okTrue := true
+		for _, b := range less.Blocks {
+			if ret, ok := b.Instrs[len(b.Instrs)-1].(*ssa.Return); ok {
+				if v, isC := constBool(ret.Results[0]); !isC || v {
+					if !(start.Dominates(b)) {
+						okTrue = false
+					}
+				}
+			}
+		}
+		r.Check(rule, base+"|less|ties", okTrue, p.Pos(less.Pos()), "every return that can yield true is dominated by the comparison of the key values (equal keys and incomparable items yield false)")
+	}
+	r.Floor(rule, "sort comparators", n, 1)
 }
